@@ -2,6 +2,7 @@ package main
 
 import (
 	"hash/fnv"
+	mrand "math/rand"
 	"math/rand/v2"
 )
 
@@ -17,3 +18,6 @@ func newRng(seed uint64, suite string) *Rng {
 func (r *Rng) pick(l []string) string   { return l[r.IntN(len(l))] }
 func (r *Rng) chance(num, den int) bool { return r.IntN(den) < num }
 func (r *Rng) bool() bool               { return r.IntN(2) == 0 }
+
+// newStdRand derives a math/rand (v1) generator, for APIs that want one (big.Int.Rand).
+func newStdRand(r *Rng) *mrand.Rand { return mrand.New(mrand.NewSource(int64(r.Uint64() >> 1))) }
